@@ -25,7 +25,7 @@
    PARTIAL: lone CR / lone LF line ends on the completeness side; on the converse side the internal
    structure of the white space (which CR / LF sequences count as folds and which as the line end):
    render/parse oracle and the correspondence run. *)
-From Sipsp Require Import Harness Classify HdrLine FLineSpec HdrSpec BlockSpec TrimSpec EolSpec.
+From Sipsp Require Import Harness Classify HdrLine FLineSpec HdrSpec BlockSpec TrimSpec EolSpec EolConv.
 
 Theorem C07_header_line : forall p name wsb lead t1 tl d x,
   nametok name -> name <> [] -> spaces wsb -> spaces lead -> tok t1 -> t1 <> [] -> good_tail tl -> is_sp d = false ->
@@ -162,3 +162,17 @@ Theorem C07_accepted_value_is_trimmed : forall buf offs o st', offs <= nnat (len
   parse_hdrline buf offs (mkhline hdr0 None) = Done o EOk st' -> trimmed buf (h_val (hx_h st')).
 Proof. exact hdrline_value_trimmed. Qed.
 Print Assumptions C07_accepted_name_and_colon.
+
+(* ---- converse side of the line end, every input: an accepted header line ends at a line end that is not followed by a blank ------------ *)
+Theorem C07_accepted_line_ends_at_a_line_end : forall buf offs o st', offs <= nnat (length buf) ->
+  parse_hdrline buf offs (mkhline hdr0 None) = Done o EOk st' -> ends_at_eol buf o.
+Proof. exact hdrline_ends_at_eol. Qed.
+Theorem C07_line_end_means : forall B o, ends_at_eol B o <->
+  exists crl, nnat crl <= o /\
+    let m := N.to_nat (o - nnat crl) in
+    ((crl = 2%nat /\ exists c d e, nth_error B m = Some c /\ is_cr c = true /\ nth_error B (S m) = Some d /\ is_lf d = true /\
+                                  nth_error B (S (S m)) = Some e /\ is_sp e = false) \/
+     (crl = 1%nat /\ exists c d, nth_error B m = Some c /\ is_crlf c = true /\ nth_error B (S m) = Some d /\ is_sp d = false /\
+                                (is_cr c = true -> is_lf d = false))).
+Proof. intros. reflexivity. Qed.
+Print Assumptions C07_accepted_line_ends_at_a_line_end.
